@@ -472,17 +472,18 @@ vharness! {
     //@ props: C19
     //@ tier: quick
     //@ functions: version::VersionCodec::decode, v5 Connect::decode
-    //@ bounds: CONNECT body of 0..=14 arbitrary bytes behind the header 10 <len>
-    //@ unwindset: utf8_is_valid=6 decode_variable_length_cursor=6 Connect=6
+    //@ bounds: CONNECT body of 0..=13 arbitrary bytes behind the header 10 <len> (13 = the shortest body the v5 decoder accepts)
+    //@ unwindset: utf8_is_valid=3 decode_variable_length_cursor=6 Connect=4 slice_eq=3
+    //@ mem: 12  timeout: 1200
     //@ desc: whenever sniffing says MQTT 5 and the whole frame is present, the v5 CONNECT decoder does not refuse the protocol name or level; whenever the v5 decoder accepts, sniffing said MQTT 5
-    fn vr_agree_v5() unwind(16) {
-        let body: [u8; 14] = vk::any_bytes::<14>();
-        let blen = vk::any_len(14);
-        let mut data = [0u8; 16];
+    fn vr_agree_v5() unwind(15) {
+        let body: [u8; 13] = vk::any_bytes::<13>();
+        let blen = vk::any_len(13);
+        let mut data = [0u8; 15];
         data[0] = 0x10;
         data[1] = blen as u8;
         let mut i = 0;
-        while i < 14 { data[2 + i] = body[i]; i += 1; }
+        while i < 13 { data[2 + i] = body[i]; i += 1; }
         let mut src = vk::bytesmut_of(data, 2 + blen);
         let r = VersionCodec.decode(&mut src);
         let mut b = vk::bytes_of(body, blen);
